@@ -239,6 +239,10 @@ var verifMorePositions = []string{
 	"select a from t order by field(b, %s)",
 	"select a from t where b = any(array[%s])",
 	"insert into t (a) values (%s) on conflict do nothing",
+	// a number the normalizer cannot convert must not stop it from replacing what follows
+	"select a from t where b = 99999999999999999999 and c = %s",
+	"select a from t where b in (18446744073709551616, 5) or c = %s",
+	"update t set a = 1e999, b = %s where c = d",
 }
 
 // VerifC16_RedactMorePositions: further places where a client value can stand (RETURNING lists, EXECUTE arguments,
